@@ -262,10 +262,22 @@ def oracle(case):
         return []
     rng = random.Random(int(t[2]))
     boundary = rand_boundary(rng) if rng.random() < 0.6 else b"BnD7"
-    regime = rng.choice(["small", "small", "small", "spill", "cap", "e2e-small", "e2e-big"])
+    regime = rng.choice(["small", "small", "small", "spill", "cap", "e2e-small", "e2e-big", "longhdr"])
     sizes = {"small": [0, 0, 1, 2, 3, 5, 8, 17, 33, 64], "spill": [8190, 8191, 8192, 8193, 3, 0],
-             "cap": [65534, 65535, 65536, 65537, 70001, 5, 0], "e2e-small": [0, 3, 17, 64], "e2e-big": [40000, 30000, 5]}[regime]
+             "cap": [65534, 65535, 65536, 65537, 70001, 5, 0], "e2e-small": [0, 3, 17, 64], "e2e-big": [40000, 30000, 5],
+             "longhdr": [0, 3, 17]}[regime]
     parts = rand_parts(rng, boundary, sizes)
+    if regime == "longhdr":
+        # a header line of a part (a long file name) whose length sits on a multiple of the 64 KiB line limit the
+        # content loop uses; more headers follow it
+        parts = parts[:2]
+        k = rng.randrange(len(parts))
+        name, _, _, content = parts[k]
+        total = rng.choice([65535, 65536, 65537, 65538, 65539, 131073, 131074])
+        fixed = len(('Content-Disposition: form-data; name="%s"; filename=""\r\n' % quote_param(name)).encode("utf-8"))
+        prefix = rng.choice(["", "ž", "a;", "x y"])
+        parts[k] = (name, prefix + "f" * (total - fixed - len(prefix.encode("utf-8")) - 4) + ".bin",
+                    rng.choice(["application/x-long", "image/png"]), content)
     if regime in ("cap", "e2e-big"):
         parts = parts[:2]
     final = rng.random() < 0.7
